@@ -14,6 +14,7 @@ import faulthandler
 import hashlib
 import json
 import multiprocessing as mp
+import signal
 import os
 import subprocess
 import sys
@@ -33,11 +34,48 @@ def seed_of(base, i):
 
 # ---------------------------------------------------------------- worker side
 _CHECK = None
+_TIMED_OUT = [False]
+
+
+class RunTimeout(BaseException):
+    pass
+
+
+def _on_alarm(signum, frame):
+    _TIMED_OUT[0] = True
+    raise RunTimeout()
+
+
+def guarded_run(chk, cfg, tape, limit, **kw):
+    """run_one under a wall-clock alarm.  Real code that loops forever (a hang is a
+    liveness violation, not a harness problem) is reported as '<PROP>/hang'; the
+    process is poisoned afterwards (a runaway thread may still be spinning)."""
+    _TIMED_OUT[0] = False
+    signal.signal(signal.SIGALRM, _on_alarm)
+    signal.setitimer(signal.ITIMER_REAL, limit)
+    try:
+        r = chk.run_one(cfg, tape, **kw)
+        signal.setitimer(signal.ITIMER_REAL, 0)
+        if _TIMED_OUT[0]:
+            raise RunTimeout()
+        return r, False
+    except BaseException:
+        signal.setitimer(signal.ITIMER_REAL, 0)
+        if not _TIMED_OUT[0]:
+            raise
+        return {
+            'violations': [{'signature': f'{chk.PROP}/hang',
+                            'detail': f'no progress for {limit}s of wall-clock time: the code under '
+                                      f'test loops or blocks outside the simulator'}],
+            'harness_error': None, 'digest': hashlib.sha256(repr(tape.out).encode()).hexdigest(),
+            'steps': 0, 'switches': 0, 'stats': {}, 'outcome': 'hang', 'nontrivial': True,
+            'tape': list(tape.out)}, True
 
 
 def _worker_chunk(args):
     (base, start, count, tier, selftest_every, chunk_timeout) = args
     chk = _CHECK
+    run_limit = chk.budget(tier).get('run_timeout', 30)
     faulthandler.dump_traceback_later(chunk_timeout, exit=True)
     try:
         agg = {
@@ -45,12 +83,17 @@ def _worker_chunk(args):
             'outcomes': collections.Counter(), 'digests': set(), 'nontrivial': set(),
             'violations': {}, 'harness': [], 'classes': collections.Counter(),
             'determinism_checked': 0, 'samples': [], 'sim_seconds': 0.0, 'states': set(),
+            'next_index': start + count,
         }
+        poisoned = False
         for i in range(start, start + count):
+            if poisoned:
+                agg['next_index'] = i
+                break
             cfg = chk.config_for(i, tier)
             seed = seed_of(base, i)
             try:
-                r = chk.run_one(cfg, Tape(seed=seed))
+                r, poisoned = guarded_run(chk, cfg, Tape(seed=seed), run_limit)
             except Exception:
                 agg['harness'].append({'index': i, 'cfg': cfg,
                                        'error': traceback.format_exc()[-1500:]})
@@ -78,7 +121,7 @@ def _worker_chunk(args):
                         'cfg': cfg, 'tape': r['tape'], 'count': (cur['count'] if cur else 0) + 1}
                 else:
                     cur['count'] += 1
-            if selftest_every and (i % selftest_every == 0):
+            if selftest_every and (i % selftest_every == 0) and not poisoned:
                 # determinism: replaying the recorded tape must give the same event log
                 r2 = chk.run_one(cfg, Tape(recorded=r['tape']))
                 agg['determinism_checked'] += 1
@@ -86,7 +129,8 @@ def _worker_chunk(args):
                     agg['harness'].append({'index': i, 'cfg': cfg,
                                            'error': 'determinism: replay of the recorded tape '
                                                     'diverged from the seeded run'})
-            if len(agg['samples']) < 2 and r.get('nontrivial') and hasattr(chk, 'sample_of'):
+            if len(agg['samples']) < 2 and r.get('nontrivial') and hasattr(chk, 'sample_of') \
+                    and not poisoned:
                 try:
                     agg['samples'].append(chk.sample_of(cfg, r))
                 except Exception:
@@ -103,8 +147,12 @@ def _digest_list(chk, base, start, count, tier):
     out = []
     for i in range(start, start + count):
         cfg = chk.config_for(i, tier)
-        r = chk.run_one(cfg, Tape(seed=seed_of(base, i)))
-        out.append(r['digest'])
+        r, poisoned = guarded_run(chk, cfg, Tape(seed=seed_of(base, i)),
+                                  chk.budget(tier).get('run_timeout', 30))
+        viol = [[v['signature'], v['detail'], r['tape']] for v in r['violations']]
+        out.append([r['digest'], viol])
+        if poisoned:
+            break
     return out
 
 
@@ -124,12 +172,13 @@ def _child_main(fn, arg, conn):
         os._exit(0)
 
 
-def run_chunks(fn, chunks, workers, chunk_timeout, wall_limit, merge):
+def run_chunks(fn, chunks, workers, chunk_timeout, wall_limit, merge, stop_when=None):
     """One forked child per chunk (a runaway vthread dies with its child), at most
     `workers` at a time; results come back through a pipe.  Returns an error string
     or None."""
     ctx = mp.get_context('fork')
     pending = list(reversed(chunks))
+    stopped_early = [False]
     live = {}
     t_end = time.time() + wall_limit
     err = None
@@ -154,6 +203,13 @@ def run_chunks(fn, chunks, workers, chunk_timeout, wall_limit, merge):
             pr.join(10)
             if kind == 'ok':
                 merge(payload)
+                if stop_when is not None and stop_when():
+                    pending.clear()
+                    stopped_early[0] = True
+                end = c[1] + c[2]
+                nxt = payload.get('next_index', end)
+                if nxt < end and not stopped_early[0]:
+                    pending.append((c[0], nxt, end - nxt) + tuple(c[3:]))
             else:
                 err = f'worker failed on chunk {c[1:3]}: {payload}'
         for rd, (pr, c, t0) in list(live.items()):
@@ -187,11 +243,15 @@ def match_known(known, prop, signature):
 
 def write_replay(chk, cfg, tape_values, signature, index, base, extra=None):
     os.makedirs(os.path.join(VERIF, 'replays'), exist_ok=True)
-    try:
-        decoded = chk.decode(cfg, tape_values)
-    except Exception as e:  # documentation only
-        decoded = {'error': repr(e)}
-    r = chk.run_one(cfg, Tape(recorded=tape_values))
+    if str(cfg.get('hashseed', '0')) != '0' or signature.endswith('/hang'):
+        decoded = {'note': 'found under another PYTHONHASHSEED; decode by replaying'}
+        r = {'digest': None}
+    else:
+        try:
+            decoded = chk.decode(cfg, tape_values)
+        except Exception as e:  # documentation only
+            decoded = {'error': repr(e)}
+        r = chk.run_one(cfg, Tape(recorded=tape_values))
     doc = {
         'property': chk.PROP, 'seed': seed_of(base, index), 'base_seed': base, 'index': index,
         'engine_version': ENGINE_VERSION, 'config': cfg, 'tape': tape_values,
@@ -211,7 +271,8 @@ def replay_file(chk, path, quiet=False):
     with open(path) as fh:
         doc = json.load(fh)
     cfg = doc['config']
-    r = chk.run_one(cfg, Tape(recorded=doc['tape']), want_trace=True)
+    r, _ = guarded_run(chk, cfg, Tape(recorded=doc['tape']), chk.budget('quick').get('run_timeout', 30),
+                       want_trace=True)
     sigs = [v['signature'] for v in r['violations']]
     ok = doc['signature'] in sigs
     if not quiet:
@@ -299,19 +360,45 @@ def run_check(chk, argv=None):
                     total['violations'][sig] = v
                 total['violations'][sig]['count'] = n
 
+    def too_many_hangs():
+        v = total['violations'].get(f'{chk.PROP}/hang')
+        return v is not None and v['count'] >= 3
+
     err = run_chunks(_worker_chunk, chunks, workers, budget.get('chunk_timeout', 600) + 30,
-                     budget.get('wall_limit', 3600), merge)
+                     budget.get('wall_limit', 3600), merge, stop_when=too_many_hangs)
     if err:
         print(f'HARNESS-ERROR {err}')
         return 2
 
+    # ---- fixed regression scenarios (one per open known finding, so that it is
+    # reported on every run and not only when the random search happens to hit it)
+    if hasattr(chk, 'scenarios'):
+        for j, cfg in enumerate(chk.scenarios(tier)):
+            try:
+                r, _p = guarded_run(chk, cfg, Tape(seed=seed_of(base, 10_000_000 + j)),
+                                    budget.get('run_timeout', 30))
+            except Exception:
+                total['harness'].append({'index': -2 - j, 'cfg': cfg,
+                                         'error': traceback.format_exc()[-1500:]})
+                continue
+            total['runs'] += 1
+            total['classes']['scenario=' + str(cfg.get('scenario'))] += 1
+            for v in r['violations']:
+                cur = total['violations'].get(v['signature'])
+                if cur is None or len(r['tape']) < len(cur['tape']):
+                    total['violations'][v['signature']] = {
+                        'signature': v['signature'], 'detail': v['detail'], 'index': 10_000_000 + j,
+                        'cfg': cfg, 'tape': r['tape'], 'count': (cur['count'] if cur else 0) + 1}
+                else:
+                    cur['count'] += 1
+
     # ---- cross-interpreter determinism (fresh process, other hash seeds)
     xdet = {'checked': 0, 'mismatch': 0}
     nx = budget.get('xproc_runs', 0)
-    if nx and not total['harness']:
+    if nx and not total['harness'] and f'{chk.PROP}/hang' not in total['violations']:
         mine = _digest_list(chk, base, 0, nx, tier)
         script = os.path.join(VERIF, 'bin', 'check')
-        for hs in budget.get('xproc_hashseeds', ('1', 'random')):
+        for hs in budget.get('xproc_hashseeds', ('0', '1', str((base * 7919 + 13) % 4294967295))):
             env = dict(os.environ)
             env['PYTHONHASHSEED'] = hs
             env['VERIF_NO_REEXEC'] = '1'
@@ -326,7 +413,21 @@ def run_check(chk, argv=None):
                                          'error': f'cross-process digest run failed: {e!r}'})
                 continue
             xdet['checked'] += nx
-            bad = [j for j in range(nx) if mine[j] != theirs[j]]
+            sens = getattr(chk, 'hash_sensitive', None)
+            if len(theirs) != nx or len(mine) != nx:
+                total['harness'].append({'index': -1, 'cfg': {'hashseed': hs},
+                                         'error': 'cross-process digest run stopped early (hang)'})
+                continue
+            bad = [j for j in range(nx) if mine[j][0] != theirs[j][0] and not (
+                hs != '0' and sens is not None and sens(chk.config_for(j, tier)))]
+            # verdicts must not depend on the hash seed either
+            for j in range(nx):
+                for sig, detail, tp in theirs[j][1]:
+                    if sig not in total['violations']:
+                        cfgj = dict(chk.config_for(j, tier))
+                        cfgj['hashseed'] = hs
+                        total['violations'][sig] = {'signature': sig, 'detail': detail, 'index': j,
+                                                    'cfg': cfgj, 'tape': tp, 'count': 1}
             if bad:
                 xdet['mismatch'] += len(bad)
                 total['harness'].append({'index': bad[0], 'cfg': {'hashseed': hs},
@@ -341,7 +442,7 @@ def run_check(chk, argv=None):
     for sig, v in sorted(total['violations'].items()):
         tape_values = v['tape']
         evals = 0
-        if not args.no_minimise:
+        if not args.no_minimise and v['cfg'].get('hashseed', '0') == '0' and not sig.endswith('/hang'):
             b = chk.budget(tier)
             tape_values, evals, ok = minimise.shrink(
                 chk.run_one, v['cfg'], v['tape'], sig,
@@ -351,7 +452,7 @@ def run_check(chk, argv=None):
                                    'original_tape_length': len(v['tape'])})
         env = dict(os.environ)
         env['VERIF_NO_REEXEC'] = '1'
-        env['PYTHONHASHSEED'] = '0'
+        env['PYTHONHASHSEED'] = str(v['cfg'].get('hashseed', '0'))
         script = os.path.join(VERIF, 'bin', 'check')
         out = subprocess.run([python_exe(), script, chk.PROP, '--replay', path], env=env,
                              capture_output=True, text=True, timeout=900)
